@@ -428,10 +428,23 @@ def r7_4(ctx: Ctx) -> None:
         if not (isinstance(loop.target, ast.Tuple) and len(loop.target.elts) == 2):
             raise AnalysisError(f"R7.4: ACL loop in {f.short} does not unpack (position, rule config)")
         kvar, cvar = (unparse(e) for e in loop.target.elts)
+        # what each rule field is built from, independent of spelling: the config keys read (locals expanded), the look-up tables
+        # indexed, whether an absent value maps to None, and whether it is the loop key itself
+        from .c20 import _expand_deep
+        ldf = LocalDefs(f.node)
         m: Dict[str, str] = {}
         for kw in c.keywords:
-            txt = unparse(kw.value).replace(cvar, "CFG").replace(kvar, "KEY")
-            m[kw.arg] = txt
+            ex = _expand_deep(ldf, kw.value)
+            if unparse(ex) == kvar:
+                m[kw.arg] = "KEY"
+                continue
+            keys = sorted({x.value for x in ast.walk(ex) if isinstance(x, ast.Constant) and isinstance(x.value, str)})
+            tables = sorted({x.value.id for x in ast.walk(ex) if isinstance(x, ast.Subscript) and isinstance(x.value, ast.Name) and x.value.id.isupper()}
+                            | {x.value.id for x in ast.walk(ex) if isinstance(x, ast.Subscript) and isinstance(x.value, ast.Name) and x.value.id[:1].isupper()
+                               and x.value.id != cvar})
+            none = any(isinstance(x, ast.Constant) and x.value is None for x in ast.walk(ex))
+            from_cfg = any(isinstance(x, ast.Name) and x.id == cvar for x in ast.walk(ex))
+            m[kw.arg] = f"keys={keys} tables={tables} none_if_absent={none} from_entry={from_cfg}"
         acl_recv = unparse(c.func.value)
         src = unparse(loop.iter)
         norm.append((f"{f.short}:{acl_recv}", m))
